@@ -333,6 +333,49 @@ def bumper_rule(ck, prog, report=None):
                             break
                     if ok is None:
                         continue
+                # ... and for a write through the loop's cursor *behind* the loop, on an exit that leaves the iteration before its bumper comparison
+                # (`while (dmax > 0 && slen > 0)` left because slen ran out: the cursor it leaves with was never compared)
+                gset = [gb for (gb, eq_succ) in guards if eq_succ not in body]
+                cur_phis = {i["id"] for i in fn.blocks[h]["insts"] if i["op"] == "phi" and i["ty"].endswith("*") and labels_of({"k": "v", "id": i["id"]}, dd, None)}
+
+                def from_cursor(o, depth=0, seen=None):
+                    seen = seen if seen is not None else set()
+                    if o.get("k") != "v" or o["id"] in seen or depth > 8:
+                        return False
+                    seen.add(o["id"])
+                    if o["id"] in cur_phis:
+                        return True
+                    d_ = fn.defs.get(o["id"])
+                    if d_ is None:
+                        return False
+                    if d_["op"] == "getelementptr":
+                        return from_cursor(d_["base"], depth + 1, seen)
+                    if d_["op"] == "bitcast":
+                        return from_cursor(d_["ops"][0], depth + 1, seen)
+                    if d_["op"] == "phi" and d_["_bb"] not in fn.loops:
+                        return any(from_cursor(x["v"], depth + 1, seen) for x in d_["incoming"])
+                    return False
+                early = [(b, sc) for b in L["blocks"] for sc in fn.succ[b] if sc not in body and not any(fn.dominates(gb, b) and gb != b for gb in gset)]
+                done_ = False
+                for (b, sc) in early:
+                    for b2 in sorted(fn.reachable_from(sc, avoid={h})):
+                        for i in fn.blocks[b2]["insts"]:
+                            w = None
+                            if i["op"] == "store" and from_cursor(i["ops"][1]):
+                                w = "store"
+                            elif i["op"] in ("call", "invoke") and i.get("args") and i["args"][0].get("ty", "").endswith("*") and from_cursor(i["args"][0]) and \
+                                    ((i.get("callee") or "").startswith(("llvm.memset", "memset", "wmemset", "handle_")) or (prog.resolve(fn, i.get("callee") or "") is not None and prog.resolve(fn, i["callee"]).internal)):
+                                w = "call " + i["callee"]
+                            if w and not any(fn.dominates(gb, b2) for gb in gset):
+                                report("C07:write-behind-loop-before-bumper:%s:loop@%s:%s" % (api.base_name(name), "dest<src" if nloops % 2 else "dest>=src", w.replace(" ", "-")), "O-bumper-guards-store",
+                                       fn.loc(i), "%s: the copy loop can be left (from %s) before the cursor of that iteration was compared with the fixed start of the other operand, and a %s "
+                                       "through that cursor follows: the terminator / slack clearing can land in the source without ESOVRLP" % (api.base_name(name), b, w))
+                                done_ = True
+                                break
+                        if done_:
+                            break
+                    if done_:
+                        break
             if not ok:
                 report("C07:bumper-missing:%s:loop@%s" % (api.base_name(name), "dest<src" if nloops % 2 else "dest>=src"), "O-bumper-guards-store",
                        "%s:%s" % (fn.file, stores[0].get("line")),
